@@ -33,6 +33,7 @@ from proto import A, dumps
 from run import Case
 import zoo
 import zoo_c16 as z
+from kernels_tie import optional_seropts as optional_obligation  # noqa: F401  (as_dict / as_obj regenerated: optional bridge)
 
 PROPERTY = "C16"
 LEAN_MODULE = "PyOak.Props.C16All"
